@@ -11,13 +11,13 @@ claimed = {
          "ideal signature scheme and collision-free hashes instead of real crypto; Database double"),
  "C02": ("5/C02", "On every certificate of the C01 harness the structure emitted through the DER model is compared with the RFC 5280 skeleton built by independent helpers; algorithm identifiers and the serial-number range (all values below the real snMax, all positive int64) are decided by the solver. The empty extension set is checked for the absence of the [3] element.",
          "encoding/asn1 leaf encoders are executed, not proved canonical; independent-parser acceptance and re-encoding stability are outside the claim"),
- "C03": ("5/C03", "Subject strings with symbolic value bytes run through the real ParseRDNSequence (incl. the interpreted regexp), optional profile validation and BuildCertBody; RDN count/order/type/value, serial and unique ids are asserted; freshness of the random serial is an existential solver query. The serial is additionally sent through the configuration text (reader stub that fills each v1 field according to its Go type) for 19 boundary values; the unique ids are compared in the encoded TBSCertificate (present/absent, empty included).",
+ "C03": ("5/C03", "Subject strings with symbolic value bytes run through the real ParseRDNSequence (incl. the interpreted regexp), optional profile validation and BuildCertBody; RDN count/order/type/value, serial and unique ids are asserted; freshness of the random serial is an existential solver query. The serial is additionally sent through the configuration text (reader stub that fills each v1 field according to its Go type) for 19 boundary values; the unique ids are compared in the encoded TBSCertificate (present/absent, empty included). Merge is checked to leave serial, unique ids, subject and the other fields untouched.",
          "skeleton-structured subjects (separator characters fixed by construction), first value 4 (quick) / 6 (thorough) symbolic bytes; YAML numbers only as a list of boundary values"),
  "C04": ("5/C04", "The real toTimeStruct with the real time.ParseInLocation / Date / AddDate code is executed with the day of month, the zone offset and the time of the run as solver variables (year and month concretised by forking) against an independent civil-calendar oracle; DER time type and the merge rule for validity are checked separately. Certificate/profile inheritance is run end to end (initCertificate, initProfile, Merge) for all 5 x 5 kinds of validity block. BuildCertBody is checked to carry any two instants (either order) into the certificate body.",
          "fixed-offset local zone instead of the tz database; divisions by constants lowered by interval analysis; durations with listed year/month counts"),
- "C05": ("5/C05", "Exhaustive symbolic run over the 15 x 9 keyAlgorithm x signatureAlgorithm configurations against RFC reference tables.",
+ "C05": ("5/C05", "Exhaustive symbolic run over the 15 x 9 keyAlgorithm x signatureAlgorithm configurations against RFC reference tables. Subordinates under issuers of another key type run through the C01 chain harness.",
          "key generation stubs record the curve / size they were asked for"),
- "C06": ("5/C06", "The real pipeline behind the YAML front end (initCertificate, parseExtensions, commonExtensionHandler via emulated reflection, readRawString with the real base64 code, BuildCertBody, Sign) is executed with raw payload bytes and critical flags symbolic; order, OID, flag and value of every emitted extension are asserted. The raw values of the unique ids are checked in the encoded TBSCertificate.",
+ "C06": ("5/C06", "The real pipeline behind the YAML front end (initCertificate, parseExtensions, commonExtensionHandler via emulated reflection, readRawString with the real base64 code, BuildCertBody, Sign) is executed with raw payload bytes and critical flags symbolic; order, OID, flag and value of every emitted extension are asserted. The raw values of the unique ids are checked in the encoded TBSCertificate. Every extension kind is checked against the reference OID table with the real v1 types.",
          "harness starts at the typed v1 structs (no YAML/JSON-schema); ideal signature scheme; fixed clock and serial"),
  "C07": ("5/C07", "Each structured extension's Builder and constructor are executed with symbolic content (flags, name bytes, octets, path length, OID arcs, qualifier members, key-id bytes) and the emitted value is compared byte for byte with a reference DER encoding written from RFC 5280/6960 (X.690 helpers independent of encoding/asn1). Every variable-length member is also run at the DER length boundaries (125..129, 253..257, 300 bytes).",
          "content strings of 2 bytes, short lists; hashed key identifiers are part of the C01 harness; the pathLen=0 defect is a recorded known finding"),
@@ -27,21 +27,21 @@ claimed = {
          "compositional coverage of the tree, 2-byte ASCII strings"),
  "C12": ("5/C12", "History quantifier discharged by induction: one default-flags run from an arbitrary directory state (symbolic artifact/hash/timestamp facts plus abstract fresh/chained facts under stated environment assumptions) must re-establish the converged state, and the following run must plan nothing. In addition every concrete history of 2 (quick) / 3 (thorough) operations out of 12 on a real three-entity directory is executed through the real FsDb and compared with a run from scratch.",
          "assumptions A1-A3 about the environment; BulkUpdate effect summary; needsUpdate summarised"),
- "C13": ("5/C13", "Self-composition on CertificateContent.HashSum: two symbolic configurations that differ only in alias / profile name / run-relative instants must hash equal, and each of 24 single edits that change the generated certificate must change the hash; SHA-1 is an uninterpreted collision-free function of the JSON text produced by the json.Marshal model. The stored hash line round trip runs through the real export/import code. The engine's encoding/json model is pinned against host-produced texts for embedded structs (vhJsonModel). Edits made in the profile are decided on the merged configuration.",
+ "C13": ("5/C13", "Self-composition on CertificateContent.HashSum: two symbolic configurations that differ only in alias / profile name / run-relative instants must hash equal, and each of 24 single edits that change the generated certificate must change the hash; SHA-1 is an uninterpreted collision-free function of the JSON text produced by the json.Marshal model. The stored hash line round trip runs through the real export/import code. The engine's encoding/json model is pinned against host-produced texts for embedded structs (vhJsonModel). Edits made in the profile are decided on the merged configuration. One-operation histories on the real directory database tie the hash to what the default run actually detects.",
          "JSON model (cross-checked on concrete calls); two recorded known findings (relative validity edits, extension kinds with identical field layout)"),
- "C14": ("5/C14", "One regeneration step through the real GenerateArtifacts for an entity holding a key of any drawn type, a request without key, or nothing; key identity, SPKI, number of key generations and the verification of a child issued afterwards are asserted. Any number of regenerations follows by induction over the stored artifact. The same is run through the real FsDb and PEM reader with hand-assembled artifact files (text before the first / after the last block, key only, request only).",
+ "C14": ("5/C14", "One regeneration step through the real GenerateArtifacts for an entity holding a key of any drawn type, a request without key, or nothing; key identity, SPKI, number of key generations and the verification of a child issued afterwards are asserted. Any number of regenerations follows by induction over the stored artifact. The same is run through the real FsDb and PEM reader with hand-assembled artifact files (text before the first / after the last block, key only, request only). Entities whose profile contributes to their effective configuration are included.",
          "ideal crypto; key-generation counter of the engine; byte-level PKCS#8 persistence for all key types is C17's subject"),
- "C17": ("5/C17", "PKCS#8 write/read of EC keys is executed for all ten curves with the private scalar as a solver variable (1 <= d < N); PEM files with every block combination are written and read back with the real encoding/pem code interpreted. Foreign encodings (scalar length L-2..L+1, inner curve OID) are built with the DER model and read back; a PRIVATE KEY block that is empty, garbage, truncated, version-flipped or a well-formed PKCS#8 with an unusable EC key is rejected at every position in the file.",
+ "C17": ("5/C17", "PKCS#8 write/read of EC keys is executed for all ten curves with the private scalar as a solver variable (1 <= d < N); PEM files with every block combination are written and read back with the real encoding/pem code interpreted. Foreign encodings (scalar length L-2..L+1, inner curve OID) are built with the DER model and read back; a PRIVATE KEY block that is empty, garbage, truncated, version-flipped or a well-formed PKCS#8 with an unusable EC key is rejected at every position in the file. The artifact file as the directory database re-reads it (key, request, both) is included.",
          "asn1.Unmarshal of symbolic bytes only as the inverse of an earlier Marshal of the same type (axiom); crypto/x509 interoperability and rejection of arbitrary invalid bytes are not decided (a list of nine invalid key blocks is)"),
- "C18": ("5/C18", "The real FsDb.Open (WalkDir, importCertConfigFile, IsConsistent) runs on an in-memory directory for every issuer graph, alias layout and collision pattern inside the bound; the suffix filter runs with symbolic letter case. Paths that differ only in letter case (directory, base name, suffix) are run for three alias modes.",
+ "C18": ("5/C18", "The real FsDb.Open (WalkDir, importCertConfigFile, IsConsistent) runs on an in-memory directory for every issuer graph, alias layout and collision pattern inside the bound; the suffix filter runs with symbolic letter case. Paths that differ only in letter case (directory, base name, suffix) are run for three alias modes. The write-set harness decides that an artifact is written next to its configuration, also for dotted paths.",
          "config.ParseConfig replaced by a flat-YAML reader feeding the real initCertificate; in-memory fs.FS double"),
- "C20": ("5/C20", "Panic-freedom is the engine's native question: every feasible path that reaches a Go panic in the interpreted real code is a violation. Dedicated harnesses cover the hash-line slicing on symbolic bytes, OID strings with over-long arcs in every position, zero-valued extensions, and every artifact-state x strategy combination of a two-level hierarchy through PlanBulkUpdate and BulkUpdate. Artifact files with unusable key blocks (nine payloads) on the leaf or the signing root are run through Open / PlanBulkUpdate / BulkUpdate for four flag sets. 39 incomplete extension contents the schema lets through are built and signed.",
+ "C20": ("5/C20", "Panic-freedom is the engine's native question: every feasible path that reaches a Go panic in the interpreted real code is a violation. Dedicated harnesses cover the hash-line slicing on symbolic bytes, OID strings with over-long arcs in every position, zero-valued extensions, and every artifact-state x strategy combination of a two-level hierarchy through PlanBulkUpdate and BulkUpdate. Artifact files with unusable key blocks (nine payloads) on the leaf or the signing root are run through Open / PlanBulkUpdate / BulkUpdate for four flag sets. 39 incomplete extension contents the schema lets through are built and signed. ParseRDNSequence runs on arbitrary ASCII value bytes and keys.",
          "yaml / jsonschema / asn1.Unmarshal / pem internals on hostile bytes are not executed"),
  "C19": ("5/C19", "Self-composition: the same configuration is generated with and without every subset of the six manipulations (symbolic values) and all fields are compared; the signature is verified over the manipulated TBS bytes. Hashed key identifiers under the key-bits manipulation are decided through the real GenerateArtifacts for a root and a subordinate.",
          "self-issued P-256 certificate with a given key; ideal signature scheme"),
- "C08": ("5/C08", "Merge is executed symbolically against the merge rule of the statement for every profile/certificate list inside the bound; inputs-unchanged frame check. The failure clause for content-less extensions is decided by the C06/C07 builder harnesses once present. A content-less profile entry with every optional/override combination runs through the real initProfile, Merge and the generator.",
+ "C08": ("5/C08", "Merge is executed symbolically against the merge rule of the statement for every profile/certificate list inside the bound; inputs-unchanged frame check. The failure clause for content-less extensions is decided by the C06/C07 builder harnesses once present. A content-less profile entry with every optional/override combination runs through the real initProfile, Merge and the generator. The real v1 extension kinds are merged pairwise (11 x 11), the frame (all other fields untouched) and the conversion of profile files (flags, attribute lists) are decided separately.",
          "extension doubles instead of the real v1 types; JSON equality via the json.Marshal model (cross-checked against the host encoder on concrete calls)"),
- "C09": ("5/C09", "Validate is executed symbolically against the three-valued oracle transcribed from the statement; attribute types, optional flags and allowOther are solver variables. Rejection is additionally decided at the planner (PlanBulkUpdate fails whatever the stored state and strategy).",
+ "C09": ("5/C09", "Validate is executed symbolically against the three-valued oracle transcribed from the statement; attribute types, optional flags and allowOther are solver variables. Rejection is additionally decided at the planner (PlanBulkUpdate fails whatever the stored state and strategy). The attribute list of a profile file is checked to reach the internal profile as written (repeated names included).",
          "lists without repeated attribute types; custom-OID spelling of attributes; logging stubbed"),
  "C10": ("5/C10", "Two consecutive planner runs from an arbitrary forest state with symbolic timestamps and flags; the first run's effect on stored state is applied as a summary; the second plan must be empty. (Write set and CLI consent harnesses are added separately.) The write set is checked through the real FsDb on the directory double, and the y/N consent through the real cobra `sign` closure with a symbolic stdin answer. The no-op clause is also run on the real directory database for a three-tier chain, 10 triggers and 6 flag sets.",
          "effect summary of BulkUpdate; no future mtimes; no certificate expires between the runs; needsUpdate summarised as a pure callee"),
